@@ -87,6 +87,26 @@ apply0 = z3.Function("apply0", Val, Val)
 EMPTY_ITEMS = z3.Const("EMPTY_ITEMS", ArrIV)
 NOGET = z3.Const("NOGET", ArrVV)
 
+# finite-set cardinality (sets as characteristic arrays); axioms in card_axioms()
+card = z3.Function("card", ArrVB, I)
+
+
+def card_axioms():
+    S = z3.Const("S", ArrVB)
+    x = z3.Const("x", Val)
+    return [
+        card(z3.K(Val, False)) == 0,
+        z3.ForAll([S], card(S) >= 0, patterns=[card(S)]),
+        z3.ForAll([S, x], z3.Implies(z3.Not(S[x]), card(z3.Store(S, x, True)) == card(S) + 1), patterns=[card(z3.Store(S, x, True))]),
+    ]
+
+
+def card_subset_eq(S, Tt):
+    """instance of: S subset of T, card S = card T (finite)  =>  T subset of S"""
+    x = z3.Const("x", Val)
+    return z3.Implies(z3.And(z3.ForAll([x], z3.Implies(S[x], Tt[x])), card(S) == card(Tt)), z3.ForAll([x], z3.Implies(Tt[x], S[x])))
+
+
 # entry heap (the heap when the verified function is entered)
 alloc0 = z3.Const("alloc0", ArrVB)
 
@@ -339,8 +359,10 @@ def base_axioms() -> List[z3.BoolRef]:
     # hashability of the builtin classes
     for n in ("list", "dict", "set"):
         ax.append(z3.ForAll([v], z3.Implies(isinst(v, n), z3.Not(hashable(v))), patterns=[hashable(v)]))
+    # instances of the hashable builtin classes, and of subclasses that do not override
+    # __hash__ / __eq__ (assumption on data values, DESIGN 2.3), are hashable
     for n in ("int", "str", "NoneType", "float", "bytes", "frozenset", "type"):
-        ax.append(z3.ForAll([v], z3.Implies(cls(v) == K(n), hashable(v)), patterns=[hashable(v)]))
+        ax.append(z3.ForAll([v], z3.Implies(isinst(v, n), hashable(v)), patterns=[hashable(v)]))
     ax.append(z3.ForAll([v], hashable(cls(v)), patterns=[hashable(cls(v))]))
     ax.append(hashable(True_))
     ax.append(hashable(False_))
